@@ -27,7 +27,7 @@ CASES = {"quick": 600, "thorough": 30000}
 RULE = ("generated histories: pool of 2-3 metamodel specifications (generated grammar, options, memoization, optional user "
         "class, optional INT processor), 6 inputs each (40% mutated), 8-24 operations (load_str / load_file / recreate). "
         "non-trivial: a failing load is followed by a successful load on the same metamodel and >=2 metamodels are "
-        "interleaved, one of them with memoization; distinct by canonical JSON")
+        "interleaved, one of them with memoization; also: histories over a scoping language (imports, RREL provider registered for two separators, global repository on/off) with failing loads and repaired files; distinct by canonical JSON")
 ASSUMPTIONS = [
     "fresh state = a metamodel newly built in the same process for the single query (process-global caches such as the "
     "grammar-parser cache are shared; a forking zygote is not used)",
